@@ -34,6 +34,10 @@ def cases(tier, seed):
                 continue
             yield {"kind": "definition", "objective": obj, "strategy": strat, "lik": lik, "beta": beta, "priors": priors, "combine_terms": comb,
                    "N": rnd.choice([20, 33]), "B": rnd.choice([1, 7, 12]), "batch": rnd.choice([[], [], [2]]), "seed": rnd.randrange(10**6)}
+        # fixed-noise likelihood with the minibatch's noise passed through the objective; B < N, and B == N in shuffled order
+        for obj, strat, full, shared in itertools.product(["VariationalELBO", "PredictiveLogLikelihood"], ["VariationalStrategy", "UnwhitenedVariationalStrategy"], [False, True], [False, True]):
+            yield {"kind": "definition", "objective": obj, "strategy": strat, "lik": "fixed", "beta": rnd.choice([0.5, 1.0]), "priors": "shared" if shared else True, "combine_terms": True,
+                   "N": 12, "B": 12 if full else 5, "batch": [], "seed": rnd.randrange(10**6)}
         for obj, wrapper, T, beta in itertools.product(["VariationalELBO", "PredictiveLogLikelihood"], ["indep", "lmc"], [2, 3], [1.0, 0.3]):
             yield {"kind": "definition_mt", "objective": obj, "wrapper": wrapper, "T": T, "beta": beta, "N": rnd.choice([20, 33]), "B": rnd.choice([1, 5, 9]), "seed": rnd.randrange(10**6)}
         for strat, q in itertools.product(["VariationalStrategy", "UnwhitenedVariationalStrategy"], ["random", "tinyS", "hugeS", "farmean", "prior", "optimal"]):
@@ -120,7 +124,7 @@ def _definition(case, ctx, g):
     from vf import util
     from vf.checks import c14
 
-    N, B, b = case["N"], min(case["B"], case["N"] - 1), case["batch"]
+    N, B, b = case["N"], (case["N"] if case["B"] >= case["N"] and case["lik"] == "fixed" else min(case["B"], case["N"] - 1)), case["batch"]
     Z = util.randn(g, M_, D)
     m = _model(case["strategy"], "CholeskyVariationalDistribution", Z, b)
     util.randomize(m.mean_module, g, 0.5)
@@ -130,6 +134,9 @@ def _definition(case, ctx, g):
     Lk = gpytorch.likelihoods
     if case["lik"] == "gauss":
         lik = Lk.GaussianLikelihood(batch_shape=torch.Size(b))
+    elif case["lik"] == "fixed":
+        stored = util.rand(g, N) * 0.5 + 0.05
+        lik = Lk.FixedNoiseGaussianLikelihood(noise=stored)
     elif case["lik"] == "bernoulli":
         lik = Lk.BernoulliLikelihood()
     else:
@@ -138,10 +145,17 @@ def _definition(case, ctx, g):
     ref_priors = []
     if case["priors"]:
         P = gpytorch.priors
-        m.covar_module.base_kernel.register_prior("vf_ls", P.GammaPrior(2.0, 1.5), lambda mm: mm.lengthscale)
-        m.covar_module.register_prior("vf_os", P.LogNormalPrior(0.1, 0.8), lambda mm: mm.outputscale)
-        ref_priors = [(lambda: torch.distributions.Gamma(2.0, 1.5).log_prob(m.covar_module.base_kernel.lengthscale).sum()),
-                      (lambda: torch.distributions.LogNormal(0.1, 0.8).log_prob(m.covar_module.outputscale).sum())]
+        if case["priors"] == "shared":
+            one = P.GammaPrior(2.0, 1.5)  # ONE prior object registered for two hyper-parameters
+            m.covar_module.base_kernel.register_prior("vf_ls", one, lambda mm: mm.lengthscale)
+            m.covar_module.register_prior("vf_os", one, lambda mm: mm.outputscale)
+            ref_priors = [(lambda: torch.distributions.Gamma(2.0, 1.5).log_prob(m.covar_module.base_kernel.lengthscale).sum()),
+                          (lambda: torch.distributions.Gamma(2.0, 1.5).log_prob(m.covar_module.outputscale).sum())]
+        else:
+            m.covar_module.base_kernel.register_prior("vf_ls", P.GammaPrior(2.0, 1.5), lambda mm: mm.lengthscale)
+            m.covar_module.register_prior("vf_os", P.LogNormalPrior(0.1, 0.8), lambda mm: mm.outputscale)
+            ref_priors = [(lambda: torch.distributions.Gamma(2.0, 1.5).log_prob(m.covar_module.base_kernel.lengthscale).sum()),
+                          (lambda: torch.distributions.LogNormal(0.1, 0.8).log_prob(m.covar_module.outputscale).sum())]
         if case["lik"] == "gauss":
             lik.register_prior("vf_noise", P.HalfCauchyPrior(1.3), lambda mm: mm.noise)
             ref_priors.append(lambda: torch.distributions.HalfCauchy(1.3).log_prob(lik.noise).sum())
@@ -159,7 +173,8 @@ def _definition(case, ctx, g):
         with torch.no_grad():
             out = m(Xb)
             _ST["cap"] = {}
-            got = obj(out, yb)
+            okw = {"noise": stored[idx]} if case["lik"] == "fixed" else {}
+            got = obj(out, yb, **okw)
             cap = _ST["cap"]
     finally:
         _ST["cap"] = None
@@ -182,10 +197,10 @@ def _definition(case, ctx, g):
         ctx.close("objective_matches_definition", got[1], kl_ref.expand(got[1].shape), (1e-9, 1e-9), cls=cls + ":kl", part="kl", beta=case["beta"])
         ctx.close("objective_matches_definition", got[2], pr_ref.expand(got[2].shape), (1e-9, 1e-9), cls=cls + ":prior", part="prior", beta=case["beta"], priors=case["priors"])
     # the captured per-point terms themselves: independent closed form for the Gaussian likelihood
-    if case["lik"] == "gauss":
+    if case["lik"] in ("gauss", "fixed"):
         import math
 
-        mean, var, r = out.mean, out.variance, lik.noise.detach()
+        mean, var, r = out.mean, out.variance, (lik.noise.detach() if case["lik"] == "gauss" else stored[idx])
         if case["objective"] == "VariationalELBO":
             ref_terms = -0.5 * (((yb - mean) ** 2 + var) / r + torch.log(r) + math.log(2 * math.pi))
         else:
